@@ -123,6 +123,15 @@ def irregular_histories(rng, t0: datetime, end: datetime):
     time — another equipment type changes; also a type that is installed later than the others.  Returns
     {"receiver": periods, "antenna": periods, "eccentricity": periods} (chronological, non-overlapping)"""
     kinds = ["receiver", "antenna", "eccentricity"]
+    if rng.random() < 0.3:
+        # the antenna (or eccentricity) is interrupted from the very date on which the receiver entry changes in firmware only
+        g = rng.choice(["antenna", "eccentricity"])
+        g0 = t0 + timedelta(days=rng.randint(200, 2000))
+        g1 = g0 + timedelta(days=rng.randint(30, 900))
+        out = {g: [(t0, g0), (g1, end)], "receiver": [(t0, g0), (g0, end)], "_same_receiver": True}
+        k = "eccentricity" if g == "antenna" else "antenna"
+        out[k] = [(t0, end)]
+        return out
     g = rng.choice(kinds)
     others = [k for k in kinds if k != g]
     rng.shuffle(others)
@@ -180,6 +189,10 @@ def gen_site_info(rng, n: int, keys: Optional[List[str]] = None, irregular: floa
         rcv_hist = {p: NS(type=rng.choice(["TRIMBLE NETR9", "LEICA GRX1200GGPRO", "SEPT POLARX5", "ASHTECH UZ-12"]),
                           serial_number=rng.choice(["5548R50598", "356103", "ZR520", "3310A"]),
                           firmware=rng.choice(["5.22", "Nav 1.30", "9.20", "6.00"])) for p in per["receiver"]}
+        if per.get("_same_receiver"):
+            first = next(iter(rcv_hist.values()))
+            for j, o in enumerate(rcv_hist.values()):
+                o.type, o.serial_number, o.firmware = first.type, first.serial_number, f"{j + 1}.00"
         ecc_hist = {p: NS(north=rng.choice([0.0, round(rng.uniform(-9, 9), 4)]), east=rng.choice([0.0, round(rng.uniform(-9, 9), 4)]),
                           up=rng.choice([0.0, 0.0054, round(rng.uniform(0, 99), 4)])) for p in per["eccentricity"]}
         si[k] = {
@@ -968,7 +981,11 @@ def gen_tms_dataset(rng):
     rng.shuffle(rows)  # stations interleaved
     n = len(rows)
     d = dataset.Dataset(num_obs=n)
-    d.add_time("time", val=[t0 + timedelta(days=k) for _, k in rows], scale="utc", fmt="datetime")
+    # the time field in another scale than UTC, epochs a few seconds after midnight of that scale (their UTC day is the day
+    # before: GPS-UTC = 18 s, TAI-UTC = 37 s)
+    scale = rng.choice(["utc", "utc", "gps", "tai"])
+    tod = rng.choice([0, 0, 5, 30, 43200])
+    d.add_time("time", val=[t0 + timedelta(days=k, seconds=tod) for _, k in rows], scale=scale, fmt="datetime")
     d.add_text("station", val=[stas[si] for si, _ in rows])
     bases = [np.array([gen_coord(rng, allow_nan=False) for _ in range(3)]) for _ in range(nsta)]
     big = rng.random() < 0.15
@@ -1071,6 +1088,7 @@ def case_tms(run: Run, rng, dft: List[Tuple[str, str]]):
     ctx.count(f"tms-stations:{len(stas)}")
     ctx.count("tms-layout:" + ("obs" if "obs" in d.fields else "flat"))
     ctx.count("tms-site-pos-system:" + str(O(d).site_pos.system))
+    ctx.count("tms-time-scale:" + str(d.time.scale) + ("/utc-day-differs" if d.time.utc.datetime[0].date() != d.time.datetime[0].date() else ""))
     if has_east:
         ctx.count("tms-dsite-pos-system:" + str(O(d).dsite_pos.system) + "/ref:" + str(O(d).dsite_pos.ref_pos.system))
     order = list(stas)
